@@ -141,7 +141,9 @@ def run_build(env, op):
         n = env.node(node)
         mt = getattr(f.ComponentModelType, model)
         if sub:
-            nports = {'SmartNIC_ConnectX_6': 2, 'SmartNIC_ConnectX_5': 2, 'SharedNIC_ConnectX_6': 1}.get(model, 0)
+            nports = {'SmartNIC_ConnectX_6': 2, 'SmartNIC_ConnectX_5': 2, 'SharedNIC_ConnectX_6': 1, 'FPGA_Xilinx_U280': 2,
+                      'FPGA_Xilinx_SN1022': 2, 'SmartNIC_BlueField_2_ConnectX_6': 2,
+                      'SharedNIC_OpenStack_vNIC': 1}.get(model, 0)
             base = 'id-%s-%s' % (node, cname)
             kw = {}
             if nports:
@@ -441,7 +443,8 @@ def enumerate_removals(snap, flavour, rng, with_invalid=True):
 # ----------------------------------------------------------------------------------------------
 SITES = ['RENC', 'UKY', 'LBNL']
 EXP_MODELS = ['SmartNIC_ConnectX_6', 'SmartNIC_ConnectX_5', 'SharedNIC_ConnectX_6', 'GPU_RTX6000', 'NVME_P4510',
-              'SmartNIC_ConnectX_6', 'SharedNIC_ConnectX_6']
+              'SmartNIC_ConnectX_6', 'SharedNIC_ConnectX_6', 'FPGA_Xilinx_U280', 'FPGA_Xilinx_SN1022',
+              'SmartNIC_BlueField_2_ConnectX_6', 'SharedNIC_OpenStack_vNIC', 'GPU_Tesla_T4']
 SVC_TYPES = ['L2Bridge', 'L2STS', 'L2PTP', 'FABNetv4', 'L3VPN', 'FABNetv6']
 STATES = ['Failed', 'Closed']
 
